@@ -1,7 +1,47 @@
 """Per-property configuration of bin/check: Lean modules holding the property theorems, and the
 correspondence streams (Go package to inject into, test function, stream name of the hwdriver)."""
 
+import os, re
+
+
+def shim_overlay(workdir):
+    """H-sched: overlay inbox.go / ringbuffer.go by copies generated NOW from the repository's current
+    files, in which only (a) the sync / sync/atomic import lines point at the yielding shims and (b) the
+    batch-size argument of PopN goes through vBatchSize() (defined by the injected harness)."""
+    repo = os.environ.get("HW_REPO", "/repo")
+    out = {}
+    mod = "github.com/anthdm/hollywood/internal/vshim"
+    for rel in ("actor/inbox.go", "ringbuffer/ringbuffer.go"):
+        src = open(os.path.join(repo, rel)).read()
+        new = re.sub(r'^(\s*)"sync/atomic"\s*$', r'\1atomic "%s/shimatomic"' % mod, src, flags=re.M)
+        new = re.sub(r'^(\s*)"sync"\s*$', r'\1sync "%s/shimsync"' % mod, new, flags=re.M)
+        if rel == "actor/inbox.go":
+            new = new.replace("PopN(messageBatchSize)", "PopN(vBatchSize())")
+        dst = os.path.join(workdir, "shim_" + rel.replace("/", "_"))
+        with open(dst, "w") as f:
+            f.write(new)
+        out[os.path.join(repo, rel)] = dst
+    return out
+
+
+_SCHED_RULE = ("sched: real inbox.go+ringbuffer.go under the deterministic scheduler; systematic enumeration by iterative preemption "
+               "bounding over 6 small configurations (1-2 senders x 1-2 messages, capacity 1-2, batch 1/2/4096, with and without a Stop) plus seeded "
+               "random schedules over 1-3 senders x 1-4 messages, capacity 1..8, batch 1/2/3/4096; every execution is replayed step by step in the "
+               "Lean model (exact diff of per-step op, result, status, queue length, #goroutines inside Receive); non-trivial = schedule of >= 8 steps; "
+               "distinct = distinct (configuration, schedule)")
+_SCHED_STREAM = dict(name="sched", pkg="actor", test="TestVerifSched", shrink_key="sched", extra_overlay=shim_overlay,
+                     timeout=1200, timeout_thorough=3400)
+_SCHED_ASSUME = ["ring operations are atomic steps (C14 + regenerated lock-shape fact); Go atomics are sequentially consistent",
+                 "every interleaving of the modelled atomic steps is possible and no other (Go memory model, runtime scheduler)",
+                 "scheduling points of the real code are exactly its atomic operations and mutex acquisitions (shimmed at build time)"]
+
 PROPS = {
+    "C01": dict(lean_modules=["HW.Props.C01"], facts=True, streams=[_SCHED_STREAM], rule=_SCHED_RULE, assumptions=_SCHED_ASSUME,
+                spec_relevant=r"FAIL:(C01|C03|harness)"),
+    "C02": dict(lean_modules=["HW.Props.C02"], facts=True, streams=[_SCHED_STREAM], rule=_SCHED_RULE, assumptions=_SCHED_ASSUME,
+                spec_relevant=r"FAIL:(C02|harness)"),
+    "C03": dict(lean_modules=["HW.Props.C03"], facts=True, streams=[_SCHED_STREAM], rule=_SCHED_RULE, assumptions=_SCHED_ASSUME,
+                spec_relevant=r"FAIL:(C03|harness)"),
     "C14": dict(
         lean_modules=["HW.Props.C14"],
         facts=True,
@@ -34,7 +74,9 @@ PROPS = {
 
 # Properties without a check yet are listed here (kept current; see DESIGN.md section 7).
 _PENDING = "machinery for this property is not built yet in this revision (planned: Lean model + theorem + correspondence, see DESIGN.md section 4); not claimed until its check exists"
-NOT_APPLICABLE = {pid: _PENDING for pid in ["C%02d" % i for i in range(1, 21)] if pid not in PROPS}
+# checks that exist but whose proofs are not complete yet are not claimed in MANIFEST.json
+NOT_READY = {"C01", "C02", "C03"}
+NOT_APPLICABLE = {pid: _PENDING for pid in ["C%02d" % i for i in range(1, 21)] if pid not in PROPS or pid in NOT_READY}
 
 MANIFEST_TEXT = {
     "C14": dict(
@@ -63,5 +105,28 @@ MANIFEST_TEXT = {
         design_ref="DESIGN.md section 4, C16",
         note="Trusted: Lean kernel; the Envelope byte decoder (vtproto) is exercised, not modelled; deserialisation success is an oracle input.",
         technique="Lean 4 total-function model + justification theorem + differential correspondence on hostile envelopes",
+    ),
+    "C01": dict(
+        text="Machine-checked invariants of the inbox transition system (one step per atomic action of inbox.go, unbounded thread list, any batch size >= 1): "
+             "conservation delivered ++ inflight ++ queue = pushed in every reachable state; at quiescence of a never-stopped inbox delivered = pushed (exactly once, in acceptance order); "
+             "per-sender program order; composed with the ring-buffer refinement (C14). Tied to the code by running the real inbox.go+ringbuffer.go under a deterministic scheduler and "
+             "replaying every explored schedule step by step in the model.",
+        design_ref="DESIGN.md section 4, C01 and Appendix A",
+        note="Trusted: Lean kernel; Go atomics/mutex semantics; ring operations as atomic steps (C14 + lock-shape fact); content fidelity of invokeMsg (message and sender handed to Receive) is covered by the process stream of C04/C13, not by this transition system.",
+        technique="Lean 4 inductive invariant over a parametric transition system + schedule-level differential correspondence (deterministic scheduler shim)",
+    ),
+    "C02": dict(
+        text="Machine-checked mutual exclusion: in every reachable state of the inbox transition system (any number of senders/stoppers/workers, every interleaving) at most one goroutine is inside Receive, "
+             "as long as the inbox is not re-opened after a Stop. Tied to the code by exhaustive preemption-bounded and random schedule exploration of the real inbox under a deterministic scheduler with exact per-step replay in the model.",
+        design_ref="DESIGN.md section 4, C02/C03 and Appendix A",
+        note="Trusted: Lean kernel; Go memory model for the happens-before chain CAS(running,idle) < CAS(idle,running) < go; the obligation 'no Start after Stop' is on process.go (C04 model).",
+        technique="Lean 4 inductive invariant (counting active workers) + schedule-level differential correspondence",
+    ),
+    "C03": dict(
+        text="Machine-checked no-lost-wake-up: in every reachable state a started, never-stopped inbox with a backlog is running or some thread is at a (re)scheduling instruction; hence every quiescent state has an empty queue and everything delivered. "
+             "Safety form of the liveness claim ('eventually' assumes a fair Go scheduler). Tied to the code by schedule exploration of the real inbox with exact replay in the model.",
+        design_ref="DESIGN.md section 4, C02/C03 and Appendix A",
+        note="Trusted: Lean kernel; fairness of the Go scheduler (not modelled); ring operations as atomic steps.",
+        technique="Lean 4 inductive invariant (pending-scheduler disjunction) + schedule-level differential correspondence",
     ),
 }
